@@ -275,7 +275,7 @@ class _Stmt(ast.NodeTransformer):
             raise ContractBindError(f"loop {k}: variables {sorted(missing)} are re-assigned in the loop but not covered by the loop contract")
 
     def visit_While(self, n):
-        k = self.loop_ids[id(n)]
+        k = n._vc_k
         spec = self.specs.get(k)
         if spec is None:
             return self._native(n)
@@ -287,7 +287,7 @@ class _Stmt(ast.NodeTransformer):
         return self._carried_assign(k, spec) + [ast.If(test=n.test, body=body, orelse=[])]
 
     def visit_For(self, n):
-        k = self.loop_ids[id(n)]
+        k = n._vc_k
         spec = self.specs.get(k)
         if spec is None:
             return self._native(n)
@@ -317,7 +317,9 @@ def rewrite_function(fn, loop_specs=None, rename=None):
     for k in loop_specs:
         if k >= len(loops):
             raise ContractBindError(f"{fn.name}: loop ordinal {k} not found ({len(loops)} loops in the source)")
-    loop_ids = {id(n): i for i, n in enumerate(loops)}
+    for i, n in enumerate(loops):
+        n._vc_k = i
+    loop_ids = None
     # R9
     fn.decorator_list = []
     fn.returns = None
